@@ -176,35 +176,48 @@ def pair_load(cg):
 
 # ------------------------------------------------------------------ the C23 oracle
 
-def check_valid(env, tag, meth, r, cg, agent_names, must_host, fp, cap, capacity_aware, info):
-    """``r`` = result of distribute (or Raised).  States the C23 obligations."""
+def _hints_tag(kind):
+    if kind in ("none", "empty"):
+        return "no-hints"
+    if kind in ("must1", "must2", "must_all", "secp_must"):
+        return "must-host-hints"
+    return "host-with-hints"
+
+
+def check_valid(env, meth, sit, r, cg, agent_names, must_host, fp, cap, capacity_aware, info):
+    """``r`` = what distribute returned (or Raised).  States the C23 obligations.  ``sit`` names the
+    situation (kind of hints, zero hosting costs possible, ...) so that distinct causes of a failure
+    get distinct obligation labels."""
     from pydcop.distribution.objects import Distribution, ImpossibleDistributionException
+    L = lambda what, extra=None: "%s.C23.%s[%s]" % (meth, what, ",".join(([extra] if extra else []) + sit))  # noqa
     if isinstance(r, Raised):
         ok = isinstance(r.exc, (ImpossibleDistributionException, TimeoutError))
         env.cover("declared-impossible" if ok else "other-error")
-        env.prove("%s.%s.raises-only-impossible-or-timeout[%s]" % (meth, tag, type(r.exc).__name__), ok,
+        env.prove(L("raises-only-impossible-or-timeout", type(r.exc).__name__), ok,
                   detail=lambda: dict(info(), raised=repr(r), tb=r.tb))
         return None
     env.cover("returned")
-    if not env.prove("%s.%s.returns-a-Distribution" % (meth, tag), isinstance(r, Distribution), detail=lambda: (info(), r)):
+    if not env.prove(L("returns-a-Distribution"), isinstance(r, Distribution), detail=lambda: (info(), r)):
         return None
     mapping = {a: list(cs) for a, cs in r.mapping().items()}
     comps = [n.name for n in cg.nodes]
     hosted = [c for cs in mapping.values() for c in cs]
     det = lambda: dict(info(), mapping=mapping)  # noqa
-    env.prove("%s.%s.every-computation-hosted" % (meth, tag), all(c in hosted for c in comps), detail=det)
-    env.prove("%s.%s.no-computation-hosted-twice" % (meth, tag), len(hosted) == len(set(hosted)), detail=det)
-    env.prove("%s.%s.only-computations-of-the-graph-hosted" % (meth, tag), all(c in comps for c in hosted), detail=det)
-    env.prove("%s.%s.hosts-are-declared-agents" % (meth, tag),
-              all(a in agent_names for a, cs in mapping.items() if cs), detail=det)
+    env.prove(L("every-computation-hosted"), all(c in hosted for c in comps), detail=det)
+    env.prove(L("no-computation-hosted-twice"), len(hosted) == len(set(hosted)), detail=det)
+    env.prove(L("only-computations-of-the-graph-hosted"), all(c in comps for c in hosted), detail=det)
+    env.prove(L("hosts-are-declared-agents"), all(a in agent_names for a, cs in mapping.items() if cs), detail=det)
+    # the Distribution object answers consistently with its mapping (objects.py consistency)
+    consistent = all(r.has_computation(c) and c in mapping.get(r.agent_for(c), []) for c in hosted)
+    env.prove(L("agent_for-agrees-with-mapping"), consistent, detail=det)
     for a, cs in must_host.items():
         for c in cs:
-            env.prove("%s.%s.must-host-hints-honoured" % (meth, tag), c in mapping.get(a, []),
+            env.prove(L("must-host-hints-honoured"), c in mapping.get(a, []),
                       detail=lambda: dict(info(), mapping=mapping, must_host=must_host))
     if capacity_aware:
         for a in agent_names:
             mine = [c for c in mapping.get(a, []) if c in comps]
-            env.prove("%s.%s.hosted-footprint-within-capacity" % (meth, tag), le(ssum([fp[c] for c in mine]), cap[a]),
+            env.prove(L("hosted-footprint-within-capacity"), le(ssum([fp[c] for c in mine]), cap[a]),
                       detail=lambda: dict(info(), mapping=mapping, agent=a, footprints=fp, capacities=cap))
     return mapping
 
@@ -223,7 +236,7 @@ def h_heuristics(env):
     comps = [n.name for n in cg.nodes]
     m = p["agents"]
     names = AGENT_NAMES[:m]
-    # ---- numeric inputs
+    # ---- numeric inputs (all >= 0)
     fp = {c: env.real("fp_%s" % c, 0) for c in comps}
     cap = {a: env.real("cap_%s" % a, 0) for a in names}
     hosting = p.get("hosting", "default0")
@@ -232,13 +245,18 @@ def h_heuristics(env):
     agents = []
     for i, a in enumerate(names):
         kw = dict(capacity=cap[a])
-        if hosting == "default":
+        if hosting in ("default", "positive"):
             kw["default_hosting_cost"] = env.real("hc_%s" % a, 0)
-        elif hosting == "specific":
+            if hosting == "positive":
+                env.assume(kw["default_hosting_cost"] > 0)
+        elif hosting in ("specific", "specific_positive"):
             kw["hosting_costs"] = {c: env.real("hc_%s_%s" % (a, c), 0) for c in comps}
             kw["default_hosting_cost"] = 3
+            if hosting == "specific_positive":
+                for c in comps:
+                    env.assume(kw["hosting_costs"][c] > 0)
         elif hosting == "one_zero":
-            # one explicit zero (pins computation i on agent i), the others positive
+            # one explicit zero (pins computation i on agent i), every other cost positive
             kw["default_hosting_cost"] = env.real("hc_%s" % a, 0)
             env.assume(kw["default_hosting_cost"] > 0)
             if i < len(comps):
@@ -270,10 +288,17 @@ def h_heuristics(env):
     if p.get("via") == "command-call":
         # the exact call ``pydcop distribute`` makes (commands/distribute.py: run_cmd)
         kw["timeout"] = 3600
-    r = env.call(mod.distribute, cg, agentsdef, **kw)
+    r = env.call(lambda: mod.distribute(cg, agentsdef, **kw))
+    sit = [_hints_tag(p.get("hints", "none"))]
+    if meth == "gh_cgdp":
+        sit.append("all-hosting-costs>0" if hosting in ("positive", "specific_positive") else "zero-hosting-cost-possible")
+    if meth == "adhoc":
+        sit.append("first-attempt" if rnd.n_shuffle <= 1 else "after-a-retry")
+    if p.get("via") == "command-call":
+        sit.append("called-as-the-distribute-command-does")
     info = lambda: dict(method=meth, graph=p["graph"], dcop=p["dcop"], agents=names, hints=p.get("hints", "none"),  # noqa
                         hosting=hosting)
-    check_valid(env, "C23", meth, r, cg, names, must_host, fp, cap, meth in CAPACITY_AWARE, info)
+    check_valid(env, meth, sit, r, cg, names, must_host, fp, cap, meth in CAPACITY_AWARE, info)
 
 
 def _shapes_heur(tier, prop=None):
@@ -282,49 +307,57 @@ def _shapes_heur(tier, prop=None):
     def add(method, dcop, graph, agents, **kw):
         S.append(dict(method=method, dcop=dcop, graph=graph, agents=agents, **kw))
 
+    HG, FG, PT, OG = GRAPHS
     # oneagent: no numbers involved; every graph model, fewer / as many / more agents than computations
     for g in GRAPHS:
         add("oneagent", "pair", g, 1)
-        add("oneagent", "chain3", g, 3, hints="must1")
-    add("oneagent", "iso", "constraints_hypergraph", 4, agents_as="values", via="command-call")
-    add("oneagent", "none", "constraints_hypergraph", 1)
-    # adhoc
-    add("adhoc", "pair", "constraints_hypergraph", 2)
-    add("adhoc", "chain3", "pseudotree", 2, max_perms=3)
-    add("adhoc", "pair", "factor_graph", 2, max_perms=3)
-    add("adhoc", "pair", "ordered_graph", 1)
-    add("adhoc", "pair", "constraints_hypergraph", 2, hints="must1")
-    add("adhoc", "chain3", "constraints_hypergraph", 2, hints="must2", max_perms=2)
-    add("adhoc", "pair", "constraints_hypergraph", 2, hints="host_with")
-    add("adhoc", "pair", "factor_graph", 2, hints="secp", max_perms=2)
-    add("adhoc", "pair", "factor_graph", 2, hints="secp_must", max_perms=2)
-    add("adhoc", "pair", "constraints_hypergraph", 2, via="command-call")
+        add("oneagent", "chain3", g, 3)
+    add("oneagent", "chain3", HG, 3, hints="must1")
+    add("oneagent", "iso", HG, 4, agents_as="values", via="command-call")
+    add("oneagent", "none", HG, 1)
+    # adhoc (every failed placement re-runs the whole procedure up to 3 times: keep the shapes tiny)
+    add("adhoc", "pair", HG, 2)
+    add("adhoc", "pair", PT, 2)
+    add("adhoc", "single", FG, 2)
+    add("adhoc", "pair", OG, 1)
+    add("adhoc", "lonely", HG, 3)
+    add("adhoc", "pair", HG, 2, hints="empty", agents_as="values")
+    add("adhoc", "pair", HG, 2, hints="must1")
+    add("adhoc", "chain3", HG, 2, hints="must2", max_perms=2)
+    add("adhoc", "pair", HG, 2, hints="host_with")
+    add("adhoc", "pair", FG, 2, hints="secp", max_perms=2)
+    add("adhoc", "pair", FG, 2, hints="secp_must", max_perms=2)
+    add("adhoc", "pair", HG, 2, via="command-call")
+    add("adhoc", "none", HG, 1)
     # heur_comhost / gh_cgdp
     for meth in ("heur_comhost", "gh_cgdp"):
-        add(meth, "pair", "constraints_hypergraph", 2, hosting="default")
-        add(meth, "pair", "constraints_hypergraph", 2, hosting="default0")
-        add(meth, "pair", "pseudotree", 2, hosting="specific", routes="sym")
-        add(meth, "chain3", "constraints_hypergraph", 2, hosting="default", routes="sym")
-        add(meth, "single", "factor_graph", 2, hosting="one_zero")
-        add(meth, "pair", "ordered_graph", 1, hosting="default")
-        add(meth, "pair", "constraints_hypergraph", 2, hosting="default", hints="must1")
-        add(meth, "none", "constraints_hypergraph", 1, hosting="default")
-    add("heur_comhost", "pair", "constraints_hypergraph", 2, hosting="default", via="command-call")
-    add("gh_cgdp", "pair", "constraints_hypergraph", 2, hosting="default", via="command-call", agents_as="values")
+        add(meth, "pair", HG, 2, hosting="default")
+        add(meth, "pair", HG, 2, hosting="default0")
+        add(meth, "pair", HG, 2, hosting="positive", agents_as="values")
+        add(meth, "pair", PT, 2, hosting="specific", routes="sym")
+        add(meth, "pair", OG, 2, hosting="specific_positive", routes="sym")
+        add(meth, "chain3", HG, 2, hosting="positive")
+        add(meth, "single", FG, 2, hosting="one_zero")
+        add(meth, "pair", OG, 1, hosting="default")
+        add(meth, "pair", HG, 2, hosting="positive", hints="must1")
+        add(meth, "none", HG, 1, hosting="default")
+        add(meth, "pair", HG, 2, hosting="positive", via="command-call")
     if tier == "thorough":
         for meth in ("heur_comhost", "gh_cgdp"):
-            add(meth, "chain3", "pseudotree", 3, hosting="default", routes="sym")
-            add(meth, "pair", "factor_graph", 2, hosting="specific")
-            add(meth, "tern", "constraints_hypergraph", 3, hosting="one_zero")
-            add(meth, "iso", "ordered_graph", 2, hosting="default")
-            add(meth, "chain3", "constraints_hypergraph", 4, hosting="default")
-        add("adhoc", "chain3", "factor_graph", 2, max_perms=2)
-        add("adhoc", "tern", "constraints_hypergraph", 3, hints="must_all")
-        add("adhoc", "iso", "ordered_graph", 3)
-        add("adhoc", "chain3", "constraints_hypergraph", 4, max_perms=3)
-        add("adhoc", "chain3", "factor_graph", 3, hints="secp_must", max_perms=2)
+            add(meth, "chain3", PT, 2, hosting="positive", routes="sym")
+            add(meth, "chain3", PT, 3, hosting="positive")
+            add(meth, "pair", FG, 2, hosting="specific")
+            add(meth, "tern", HG, 3, hosting="one_zero")
+            add(meth, "iso", OG, 2, hosting="default")
+            add(meth, "dup", HG, 3, hosting="specific_positive")
+        add("adhoc", "chain3", PT, 2, max_perms=3)
+        add("adhoc", "pair", FG, 2, max_perms=3)
+        add("adhoc", "tern", HG, 3, hints="must_all")
+        add("adhoc", "iso", OG, 3, max_perms=2)
+        add("adhoc", "chain3", FG, 3, hints="secp_must", max_perms=2)
         for g in GRAPHS:
             add("oneagent", "star4", g, 4, hints="must2")
+            add("oneagent", "dup", g, 3)
     return S
 
 
@@ -333,13 +366,489 @@ Contract(
     ["pydcop.distribution.oneagent:distribute", "pydcop.distribution.adhoc:distribute", "pydcop.distribution.adhoc:_distribute_try",
      "pydcop.distribution.heur_comhost:distribute", "pydcop.distribution.heur_comhost:candidate_hosts",
      "pydcop.distribution.gh_cgdp:distribute", "pydcop.distribution.gh_cgdp:candidate_hosts",
-     "pydcop.distribution.objects:Distribution.__init__", "pydcop.distribution.objects:DistributionHints.must_host",
-     "pydcop.distribution.objects:DistributionHints.host_with"],
+     "pydcop.distribution.objects:Distribution.__init__", "pydcop.distribution.objects:Distribution.agent_for",
+     "pydcop.distribution.objects:DistributionHints.must_host", "pydcop.distribution.objects:DistributionHints.host_with"],
     h_heuristics, _shapes_heur, mode="B", must_cover=["returned"],
     trusted=["random.random / choice / shuffle modelled as fresh real in [0,1) / explored choice / explored subset of the permutations"],
     assumptions=["hints name declared agents and computations of the graph, a computation at most once in must_host",
-                 "footprints, capacities, hosting and route costs are >= 0; communication loads are concrete (route * load stays linear)",
+                 "footprints, capacities, hosting and route costs are >= 0 and routes symmetric (as the yaml loader builds them); "
+                 "communication loads are concrete so that route * load stays linear",
                  "adhoc: shuffle explores at most max_perms orders of the nodes (2 on retries)"],
-    budget=dict(all_failures=True, quick=dict(max_paths=4000, timeout_s=100), thorough=dict(max_paths=60000, timeout_s=900)),
-    desc="oneagent, adhoc, heur_comhost, gh_cgdp: a valid mapping (hosted once, declared agents, must-host, capacity) or ImpossibleDistributionException",
+    budget=dict(all_failures=True, quick=dict(max_paths=1500, timeout_s=100), thorough=dict(max_paths=60000, timeout_s=900)),
+    desc="oneagent, adhoc, heur_comhost, gh_cgdp on symbolic footprints/capacities/costs: a valid mapping (hosted once, declared agents, "
+         "must-host, capacity) or ImpossibleDistributionException",
+)
+
+
+# ------------------------------------------------------------------ ILP methods: concrete instances from small grids
+
+def _cbc_in_place_of_glpk(*a, **kw):
+    """GLPK_CMD(...) as written in the module under check -> PuLP's bundled CBC"""
+    import pulp
+    return pulp.PULP_CBC_CMD(msg=0, timeLimit=120)
+
+
+def gen_instance(rng, comps, names, style):
+    """plain-number instance: footprints, capacities, hosting costs, routes, loads from small grids"""
+    inst = {}
+    fp = {c: rng.choice([1, 1, 2, 3]) for c in comps}
+    if rng.random() < 0.15 and comps:
+        fp[rng.choice(comps)] = 0
+    total = sum(fp.values())
+    m = len(names)
+    capkind = rng.choice(style.get("cap", ["ample", "tight", "tight", "mixed", "short"]))
+    if capkind == "ample":
+        cap = {a: total + rng.choice([0, 5]) for a in names}
+    elif capkind == "tight":
+        base = -(-total // m) if m else 0
+        cap = {a: max(0, base + rng.choice([0, 0, 1, -1])) for a in names}
+    elif capkind == "mixed":
+        cap = {a: rng.randint(0, max(total, 1)) for a in names}
+    else:
+        cap = {a: rng.randint(0, max(list(fp.values()) + [1])) for a in names}
+    hk = rng.choice(style.get("hosting", ["default0", "default_pos", "specific_pos", "some_zero", "some_zero", "zero_clash"]))
+    default = {a: 0 for a in names}
+    specific = {a: {} for a in names}
+    if hk == "default_pos":
+        default = {a: rng.choice([1, 2, 5]) for a in names}
+    elif hk in ("specific_pos", "some_zero", "zero_clash"):
+        default = {a: rng.choice([1, 3]) for a in names}
+        specific = {a: {c: rng.choice([1, 2, 5, 10]) for c in comps if rng.random() < 0.8} for a in names}
+        if hk != "specific_pos" and comps:
+            for c in rng.sample(comps, min(len(comps), rng.choice([1, 1, 2]))):
+                specific[rng.choice(names)][c] = 0
+            if hk == "zero_clash" and m > 1:
+                c = rng.choice(comps)
+                for a in rng.sample(names, 2):
+                    specific[a][c] = 0
+    rk = rng.choice(style.get("routes", ["default1", "default_k", "specific", "specific"]))
+    default_route = 1 if rk == "default1" else rng.choice([0, 2, 5])
+    pair_route = {}
+    if rk == "specific":
+        for a, b in itertools.combinations(sorted(names), 2):
+            if rng.random() < 0.8:
+                pair_route[(a, b)] = rng.choice([0, 1, 3, 7])
+    loads = {}
+    for a, b in itertools.combinations(sorted(comps), 2):
+        loads[(a, b)] = rng.choice(style.get("loads", [1, 1, 2, 3, 0]))
+    inst.update(fp=fp, cap=cap, hosting_kind=hk, default_hosting=default, hosting=specific, default_route=default_route,
+                routes={"%s-%s" % k: v for k, v in pair_route.items()}, capkind=capkind,
+                loads={"%s-%s" % k: v for k, v in loads.items()})
+    return inst
+
+
+def agents_of(inst, names):
+    from pydcop.dcop.objects import AgentDef
+    out = []
+    for a in names:
+        routes = {}
+        for k, v in inst["routes"].items():
+            x, y = k.split("-")
+            if x == a:
+                routes[y] = v
+            elif y == a:
+                routes[x] = v
+        kw = dict(capacity=inst["cap"][a], default_route=inst["default_route"], routes=routes)
+        if inst["hosting_kind"] != "default0":
+            kw["default_hosting_cost"] = inst["default_hosting"][a]
+            kw["hosting_costs"] = dict(inst["hosting"][a])
+        out.append(AgentDef(a, **kw))
+    return out
+
+
+def _load_of(inst):
+    def load(a, b):
+        x, y = sorted((a, b))
+        return inst["loads"].get("%s-%s" % (x, y), 1)
+    return load
+
+
+def valid_distributions(meth, comps, names, agents, fp, cap):
+    """every mapping satisfying the method's own hard rules: capacities, every computation hosted
+    once, a computation with hosting cost 0 on an agent is pinned to that agent, and (ilp_fgdp)
+    every agent hosts something"""
+    pinned = {}
+    for c in comps:
+        zero = [a.name for a in agents if a.hosting_cost(c) == 0]
+        if len(zero) > 1:
+            return []  # pinned to two agents: no mapping satisfies the rules
+        if zero:
+            pinned[c] = zero[0]
+    out = []
+    for asg in itertools.product(names, repeat=len(comps)):
+        m = dict(zip(comps, asg))
+        if any(m[c] != a for c, a in pinned.items()):
+            continue
+        if any(sum(fp[c] for c in comps if m[c] == a) > cap[a] for a in names):
+            continue
+        if meth == "ilp_fgdp" and any(a not in asg for a in names):
+            continue
+        out.append(m)
+    return out
+
+
+def h_ilp(env):
+    from pydcop.distribution.objects import Distribution, ImpossibleDistributionException
+    p = env.params
+    meth = p["method"]
+    prop = p.get("prop", "C23")
+    mod = env.call(importlib.import_module, "pydcop.distribution." + meth)
+    if isinstance(mod, Raised):
+        env.prove("%s.C23.module-imports" % meth, False, detail=lambda: mod.tb)
+        return
+    mod.GLPK_CMD = _cbc_in_place_of_glpk
+    dcop, cg = build_graph(env, p["dcop"], p["graph"])
+    comps = [n.name for n in cg.nodes]
+    names = AGENT_NAMES[:p["agents"]]
+    k = env.choice("instance", list(range(p["n"])))
+    key = "%s/%s/%s/%d/%s/%d/%d" % (meth, p["dcop"], p["graph"], p["agents"], p.get("style_name", ""), p.get("_seed", 0), k)
+    inst = gen_instance(_pyrandom.Random(key), comps, names, p.get("style", {}))
+    agents = agents_of(inst, names)
+    agentsdef = agents if p.get("agents_as", "list") == "list" else {a.name: a for a in agents}.values()
+    fp, cap = inst["fp"], inst["cap"]
+    load = _load_of(inst)
+    hints, must_host = make_hints(p.get("hints", "none"), cg, names)
+
+    def memory(node):
+        return fp[node.name]
+
+    def comm(node, target):
+        return load(node.name, target)
+
+    kw = dict(hints=hints, computation_memory=memory, communication_load=comm)
+    if p.get("via") == "command-call":
+        kw["timeout"] = 3600
+    cwd = os.getcwd()
+    tmp = tempfile.mkdtemp(prefix="pvc_dist_")
+    os.chdir(tmp)  # ilp_compref keeps its LP files in the working directory
+    try:
+        r = env.call(lambda: mod.distribute(cg, agentsdef, **kw))
+    finally:
+        os.chdir(cwd)
+        import shutil
+        shutil.rmtree(tmp, ignore_errors=True)
+    zero_possible = inst["hosting_kind"] in ("default0", "some_zero", "zero_clash")
+    sit = [_hints_tag(p.get("hints", "none")), "zero-hosting-cost-present" if zero_possible else "all-hosting-costs>0"]
+    if p["graph"] in ("pseudotree", "ordered_graph") or p["dcop"] == "dup":
+        sit.append("several-links-between-two-computations")
+    if p.get("via") == "command-call":
+        sit.append("called-as-the-distribute-command-does")
+    info = lambda: dict(method=meth, graph=p["graph"], dcop=p["dcop"], agents=names, hints=p.get("hints", "none"), instance=inst)  # noqa
+    if prop == "C23":
+        check_valid(env, meth, sit, r, cg, names, must_host, fp, cap, True, info)
+        return
+    # ---------------- C24: brute-force optimum under the method's own hard rules and cost
+    valid = valid_distributions(meth, comps, names, agents, fp, cap)
+
+    def cost_of(m):
+        d = Distribution({a: [c for c in comps if m[c] == a] for a in names})
+        return mod.distribution_cost(d, cg, agents, memory, comm)[0]
+
+    sit24 = sit[1:]
+    L = lambda what, extra=None: "%s.C24.%s[%s]" % (meth, what, ",".join(([extra] if extra else []) + sit24))  # noqa
+    if isinstance(r, Raised):
+        env.cover("declared-impossible")
+        if valid:
+            best = min(valid, key=cost_of)
+            env.prove(L("returns-a-distribution-when-a-valid-one-exists", type(r.exc).__name__), False,
+                      detail=lambda: dict(info(), raised=repr(r), a_valid_distribution=best, n_valid=len(valid)))
+        else:
+            env.prove(L("declares-impossible-only-when-no-valid-distribution-exists"), True)
+        return
+    if not isinstance(r, Distribution):
+        return  # C23's business
+    env.cover("returned")
+    got = {c: r.agent_for(c) for c in comps if r.has_computation(c)}
+    member = got in valid
+    env.prove(L("result-satisfies-the-methods-hard-rules"), member,
+              detail=lambda: dict(info(), returned=r.mapping(), n_valid=len(valid)))
+    if not valid or len(got) != len(comps):
+        return
+    c_got = mod.distribution_cost(r, cg, agents, memory, comm)[0]
+    best = min(valid, key=cost_of)
+    c_best = cost_of(best)
+    env.prove(L("cost-is-minimal-among-valid-distributions"), c_got <= c_best + 1e-9,
+              detail=lambda: dict(info(), returned=r.mapping(), cost=c_got, cheaper=best, cheaper_cost=c_best))
+
+
+_STYLES = {
+    "any": {},
+    "pos": dict(hosting=["default_pos", "specific_pos"]),
+    "zero": dict(hosting=["some_zero"]),
+    "room": dict(cap=["ample", "mixed"], hosting=["specific_pos", "some_zero"]),
+}
+
+
+def _shapes_ilp(tier, prop="C23"):
+    S = []
+    big = tier == "thorough"
+
+    def add(method, dcop, graph, agents, n, style="any", **kw):
+        S.append(dict(method=method, dcop=dcop, graph=graph, agents=agents, n=n * (6 if big else 1), style=_STYLES[style],
+                      style_name=style, prop=prop, **kw))
+
+    HG, FG, PT, OG = GRAPHS
+    if prop == "C24":
+        # <= 5 computations x <= 3 agents
+        add("oilp_cgdp", "pair", HG, 2, 10, "pos")
+        add("oilp_cgdp", "chain3", HG, 2, 10, "pos")
+        add("oilp_cgdp", "chain3", HG, 3, 10, "pos")
+        add("oilp_cgdp", "tri", HG, 3, 10, "room")
+        add("oilp_cgdp", "tern", HG, 3, 8, "zero")
+        add("oilp_cgdp", "chain3", HG, 3, 10, "zero")
+        add("oilp_cgdp", "chain4", HG, 2, 8, "any")
+        add("oilp_cgdp", "pair", FG, 3, 8, "room")
+        add("oilp_cgdp", "chain3", FG, 2, 8, "pos")
+        add("oilp_cgdp", "chain3", PT, 3, 8, "pos")
+        add("oilp_cgdp", "chain3", OG, 2, 8, "pos")
+        add("oilp_cgdp", "dup", HG, 2, 6, "pos")
+        add("oilp_cgdp", "iso", HG, 3, 6, "any")
+        add("oilp_cgdp", "single", HG, 1, 3, "any")
+        add("ilp_fgdp", "pair", FG, 2, 10, "pos")
+        add("ilp_fgdp", "pair", FG, 3, 10, "pos")
+        add("ilp_fgdp", "chain3", FG, 2, 10, "pos")
+        add("ilp_fgdp", "chain3", FG, 3, 10, "room")
+        add("ilp_fgdp", "chain3", FG, 3, 10, "zero")
+        add("ilp_fgdp", "tern", FG, 3, 8, "room")
+        add("ilp_fgdp", "single", FG, 2, 6, "any")
+        add("ilp_fgdp", "single", FG, 1, 3, "any")
+        add("ilp_fgdp", "dup", FG, 2, 8, "zero")
+        if big:
+            add("oilp_cgdp", "chain5", HG, 3, 10, "any")
+            add("oilp_cgdp", "star4", PT, 3, 10, "room")
+            add("oilp_cgdp", "tern_pair", HG, 3, 10, "room")
+            add("oilp_cgdp", "chain4", OG, 3, 10, "zero")
+            add("ilp_fgdp", "chain3u", FG, 3, 10, "any")
+            add("ilp_fgdp", "dup", FG, 3, 10, "room")
+        return S
+    for meth in ("oilp_cgdp", "ilp_compref"):
+        add(meth, "pair", HG, 2, 8, "any")
+        add(meth, "chain3", HG, 3, 8, "pos")
+        add(meth, "chain3", HG, 2, 8, "zero")
+        add(meth, "pair", FG, 2, 6, "any")
+        add(meth, "pair", PT, 2, 4, "pos")
+        add(meth, "chain3", OG, 2, 4, "pos")
+        add(meth, "dup", HG, 2, 4, "pos")
+        add(meth, "tern", HG, 4, 6, "any")
+        add(meth, "iso", HG, 1, 4, "any", agents_as="values")
+        add(meth, "pair", HG, 2, 4, "pos", hints="must1")
+        add(meth, "pair", HG, 2, 2, "pos", via="command-call")
+    add("ilp_fgdp", "pair", FG, 2, 8, "any")
+    add("ilp_fgdp", "pair", FG, 3, 8, "pos")
+    add("ilp_fgdp", "chain3", FG, 3, 8, "zero")
+    add("ilp_fgdp", "single", FG, 1, 4, "any")
+    add("ilp_fgdp", "single", FG, 4, 4, "pos")
+    add("ilp_fgdp", "dup", FG, 2, 6, "room", agents_as="values")
+    add("ilp_fgdp", "pair", FG, 2, 4, "pos", hints="must1")
+    add("ilp_fgdp", "pair", FG, 2, 2, "pos", via="command-call")
+    if big:
+        for meth in ("oilp_cgdp", "ilp_compref"):
+            add(meth, "star4", HG, 4, 6, "any")
+            add(meth, "chain3", PT, 3, 6, "any")
+            add(meth, "tern_pair", FG, 3, 4, "room")
+        add("ilp_fgdp", "chain3u", FG, 4, 6, "any")
+        add("ilp_fgdp", "tern", FG, 3, 6, "zero")
+    return S
+
+
+Contract(
+    "distribution.ilp", ["C23", "C24"],
+    ["pydcop.distribution.oilp_cgdp:distribute", "pydcop.distribution.oilp_cgdp:ilp_cgdp", "pydcop.distribution.oilp_cgdp:_objective",
+     "pydcop.distribution.oilp_cgdp:distribution_cost", "pydcop.distribution.ilp_fgdp:distribute",
+     "pydcop.distribution.ilp_fgdp:factor_graph_lp_model", "pydcop.distribution.ilp_fgdp:_objective_function",
+     "pydcop.distribution.ilp_fgdp:distribution_cost", "pydcop.distribution.ilp_compref:distribute",
+     "pydcop.distribution.ilp_compref:lp_model", "pydcop.distribution.objects:Distribution.host_on_agent"],
+    h_ilp, _shapes_ilp, mode="E", must_cover=["returned"],
+    trusted=["MILP solver: GLPK_CMD (glpsol not installed) rebound in the module under check to PuLP's bundled CBC; "
+             "the solver is assumed to return an optimal 0/1 point of the model it is given, or 'infeasible'"],
+    assumptions=["ILP methods: numeric instances are drawn by a seeded generator from small grids (footprints 0-3, tight/ample/short "
+                 "capacities, hosting costs incl. default 0 and explicit zeros, symmetric routes 0-7, loads 0-3), not all reals",
+                 "communication loads symmetric (as maxsum's); ilp_fgdp only on factor graphs (its documented domain)",
+                 "C24 oracle: brute-force enumeration of all agent^computation mappings under the method's own hard rules and distribution_cost"],
+    budget=dict(all_failures=True, quick=dict(max_paths=400, timeout_s=200), thorough=dict(max_paths=4000, timeout_s=2000)),
+    desc="oilp_cgdp, ilp_compref, ilp_fgdp on concrete grid instances: valid mapping or impossibility (C23); "
+         "oilp_cgdp, ilp_fgdp cost-minimal against brute force (C24)",
+)
+
+
+# ------------------------------------------------------------------ C23 through the distribute command
+
+def _yaml_of(spec, names, inst, hints_kind, comps):
+    s = POOL[spec]
+    L = ["name: t", "objective: min", "domains:", "  d: {values: [10, 0, 5]}", "variables:"]
+    for v in s["vars"]:
+        L.append("  %s: {domain: d}" % v)
+    L.append("constraints:")
+    for c, scope in s["cons"]:
+        L.append("  %s: {type: intention, function: %s}" % (c, " + ".join(scope)))
+    L.append("agents:")
+    for a in names:
+        L.append("  %s: {capacity: %s}" % (a, inst["cap"][a]))
+    if inst["hosting_kind"] != "default0":
+        L.append("hosting_costs:")
+        for a in names:
+            comp = ", ".join("%s: %s" % kv for kv in inst["hosting"][a].items())
+            L.append("  %s: {default: %s, computations: {%s}}" % (a, inst["default_hosting"][a], comp))
+    L.append("routes:")
+    L.append("  default: %s" % inst["default_route"])
+    by = {}
+    for k, v in inst["routes"].items():
+        x, y = k.split("-")
+        by.setdefault(x, {})[y] = v
+    for x, d in by.items():
+        L.append("  %s: {%s}" % (x, ", ".join("%s: %s" % kv for kv in d.items())))
+    mh = {}
+    if hints_kind == "must1" and comps:
+        mh = {names[-1]: [comps[0]]}
+        L.append("distribution_hints:")
+        L.append("  must_host: {%s: [%s]}" % (names[-1], comps[0]))
+    return "\n".join(L) + "\n", mh
+
+
+_ALGO_GRAPH = dict(dsa="constraints_hypergraph", mgm="constraints_hypergraph", maxsum="factor_graph", amaxsum="factor_graph",
+                   dpop="pseudotree", syncbb="ordered_graph")
+
+
+def h_command(env):
+    """the real ``pydcop distribute`` back end (commands.distribute.run_cmd) on a yaml file"""
+    import argparse
+    import yaml
+    p = env.params
+    meth = p["method"]
+    algo = p.get("algo")
+    graph = p.get("graph") or _ALGO_GRAPH[algo]
+    names = AGENT_NAMES[:p["agents"]]
+    D = env.call(importlib.import_module, "pydcop.commands.distribute")
+    if isinstance(D, Raised):
+        env.prove("command.C23.module-imports", False, detail=lambda: D.tb)
+        return
+    # computations and footprints as the command will see them (same builders, same algorithm module)
+    gmod = importlib.import_module("pydcop.computations_graph." + graph)
+    cg0 = env.call(gmod.build_computation_graph, build_dcop(p["dcop"]))
+    if isinstance(cg0, Raised):
+        env.assume(False)
+    comps = [n.name for n in cg0.nodes]
+    k = env.choice("instance", list(range(p["n"])))
+    key = "cmd/%s/%s/%s/%s/%d/%d/%d" % (meth, p["dcop"], graph, algo, p["agents"], p.get("_seed", 0), k)
+    rng = _pyrandom.Random(key)
+    inst = gen_instance(rng, comps, names, p.get("style", {}))
+    if algo and meth in CAPACITY_AWARE:
+        from pydcop.algorithms import load_algorithm_module
+        amod = load_algorithm_module(algo)
+        fps = {}
+        for n in cg0.nodes:
+            f = env.call(amod.computation_memory, n)
+            if isinstance(f, Raised):
+                env.assume(False)
+            fps[n.name] = f
+        # capacities relative to the algorithm's own footprints
+        total = sum(fps.values())
+        scale = rng.choice([0, 0.3, 0.5, 0.6, 1, 2])
+        inst["cap"] = {a: int(total * scale) + rng.choice([0, 1, 3]) for a in names}
+        inst["fp"] = fps
+    text, must_host = _yaml_of(p["dcop"], names, inst, p.get("hints", "none"), comps)
+    tmp = tempfile.mkdtemp(prefix="pvc_distcmd_")
+    path = os.path.join(tmp, "dcop.yaml")
+    with open(path, "w") as f:
+        f.write(text)
+    for m in ("ilp_fgdp", "ilp_compref", "oilp_cgdp"):
+        if meth == m:
+            mm = env.call(importlib.import_module, "pydcop.distribution." + m)
+            if not isinstance(mm, Raised):
+                mm.GLPK_CMD = _cbc_in_place_of_glpk
+    args = argparse.Namespace(dcop_files=[path], distribution=meth, cost=None, algo=algo,
+                              graph=p.get("graph"), output=None)
+    out = io.StringIO()
+
+    def run():
+        old, cwd = sys.stdout, os.getcwd()
+        sys.stdout = out
+        os.chdir(tmp)
+        try:
+            D.run_cmd(args)
+        except SystemExit as e:
+            return e.code
+        finally:
+            sys.stdout = old
+            os.chdir(cwd)
+        return "returned-without-exit"
+
+    r = env.call(run)
+    import shutil
+    shutil.rmtree(tmp, ignore_errors=True)
+    zero_possible = inst["hosting_kind"] in ("default0", "some_zero", "zero_clash")
+    sit = [meth, "must-host-hints" if must_host else "no-hints"]
+    if meth in ("gh_cgdp", "ilp_fgdp", "oilp_cgdp"):
+        sit.append("zero-hosting-cost-present" if zero_possible else "all-hosting-costs>0")
+    L = lambda what, extra=None: "command.C23.%s[%s]" % (what, ",".join(([extra] if extra else []) + sit))  # noqa
+    info = lambda: dict(method=meth, algo=algo, graph=graph, dcop=p["dcop"], yaml=text, stdout=out.getvalue()[-600:])  # noqa
+    env.cover("ran")
+    if isinstance(r, Raised):
+        env.prove(L("command-ends-with-a-result-not-a-traceback", type(r.exc).__name__), False,
+                  detail=lambda: dict(info(), raised=repr(r), tb=r.tb))
+        return
+    res = env.call(yaml.safe_load, out.getvalue())
+    ok = not isinstance(res, Raised) and isinstance(res, dict) and res.get("status") in ("SUCCESS", "FAIL", "TIMEOUT")
+    env.prove(L("prints-a-result-with-a-status"), ok and r == 0, detail=lambda: dict(info(), exit=r))
+    if not ok or res["status"] != "SUCCESS":
+        env.cover("declared-impossible")
+        return
+    env.cover("returned")
+    mapping = res.get("distribution") or {}
+    hosted = [c for cs in mapping.values() for c in cs]
+    det = lambda: dict(info(), mapping=mapping)  # noqa
+    env.prove(L("every-computation-hosted-exactly-once"), sorted(hosted) == sorted(comps), detail=det)
+    env.prove(L("hosts-are-declared-agents"), all(a in names for a, cs in mapping.items() if cs), detail=det)
+    for a, cs in must_host.items():
+        for c in cs:
+            env.prove(L("must-host-hints-honoured"), c in (mapping.get(a) or []), detail=det)
+    if meth in CAPACITY_AWARE and algo:
+        for a in names:
+            tot = sum(inst["fp"][c] for c in (mapping.get(a) or []) if c in inst["fp"])
+            env.prove(L("hosted-footprint-within-capacity"), tot <= inst["cap"][a],
+                      detail=lambda: dict(info(), mapping=mapping, agent=a, footprints=inst["fp"], capacities=inst["cap"]))
+
+
+def _shapes_cmd(tier, prop=None):
+    S = []
+    big = tier == "thorough"
+
+    def add(method, dcop, agents, n, algo=None, graph=None, style="any", **kw):
+        S.append(dict(method=method, dcop=dcop, agents=agents, n=n * (4 if big else 1), algo=algo, graph=graph,
+                      style=_STYLES[style], **kw))
+
+    add("oneagent", "chain3", 3, 2, graph="constraints_hypergraph")
+    add("oneagent", "pair", 2, 2, graph="factor_graph")
+    add("oneagent", "pair", 3, 2, algo="dpop")
+    add("oneagent", "pair", 3, 2, algo="syncbb", hints="must1")
+    add("adhoc", "chain3", 2, 6, algo="dsa")
+    add("adhoc", "pair", 2, 2, graph="constraints_hypergraph")
+    add("heur_comhost", "chain3", 2, 6, algo="dsa", style="pos")
+    add("gh_cgdp", "chain3", 2, 6, algo="dsa", style="pos")
+    add("gh_cgdp", "pair", 2, 6, algo="maxsum", style="zero")
+    add("gh_cgdp", "chain3", 2, 4, algo="syncbb", style="pos", hints="must1")
+    add("oilp_cgdp", "pair", 2, 6, algo="dsa", style="pos")
+    add("oilp_cgdp", "chain3", 3, 6, algo="maxsum", style="any")
+    add("ilp_compref", "pair", 2, 4, algo="dsa", style="pos")
+    add("ilp_fgdp", "pair", 2, 6, algo="maxsum", style="pos")
+    add("ilp_fgdp", "pair", 2, 2, graph="factor_graph", style="pos")
+    if big:
+        add("gh_cgdp", "star4", 3, 6, algo="mgm", style="any")
+        add("oilp_cgdp", "chain3", 3, 6, algo="mgm", style="any")
+        add("oilp_cgdp", "chain3", 2, 6, algo="syncbb", style="pos")
+        add("ilp_fgdp", "chain3", 3, 6, algo="amaxsum", style="any")
+        add("oneagent", "star4", 4, 4, algo="mgm")
+    return S
+
+
+Contract(
+    "distribution.command", ["C23"],
+    ["pydcop.commands.distribute:run_cmd", "pydcop.commands.distribute:load_distribution_module",
+     "pydcop.commands.distribute:load_graph_module"],
+    h_command, _shapes_cmd, mode="E", must_cover=["ran"],
+    trusted=["MILP solver: GLPK_CMD rebound to PuLP's bundled CBC (see distribution.ilp)", "yaml loader and graph builders (C14, C16, C17)"],
+    assumptions=["command: run_cmd is called in-process with the argparse namespace the CLI builds; --algo is given for the methods "
+                 "that need footprints (documented requirement); footprints are the algorithm module's own computation_memory"],
+    budget=dict(all_failures=True, quick=dict(max_paths=200, timeout_s=200), thorough=dict(max_paths=2000, timeout_s=1500)),
+    desc="pydcop distribute back end on yaml files: prints SUCCESS with a valid mapping, or FAIL / TIMEOUT; never a traceback",
 )
